@@ -29,13 +29,13 @@ fn as_event(bytes: &[u8]) -> &Event {
 //@ bounds: one event (fixed id and author, kind 7, created_at 4105); _letter: the single tag [L ab] with L an ARBITRARY one-byte tag name (either case, digits, any byte); _repeated_tag: the tags [e ab] [e ab] (the same indexable tag twice: the second put overwrites, the second delete finds nothing) - an indexable tag, the same tag REPEATED, a name without value and an empty tag. After Lmdb::index: the id, time, author and author-kind tables hold 1 entry each and the three tag tables hold equally many (the repeated tag shares its key); after Lmdb::deindex and Lmdb::deindex_id in the same transaction every table is empty again
 //@ outside: several events; values longer than 2 bytes; the Store-level wrappers (remove_event etc.: thorough tier)
 //@ assumes: heed model (put/delete/len inside one write transaction)
-fn mirror(sym_time: bool, sym_kind: bool, sym_value: bool, sym_letter: bool, shape: u8) {
+fn mirror(sym_time: bool, sym_kind: bool, sym_value: bool, sym_letter: bool, shape: u8, fixed_letter: u8) {
     let l = lmdb();
     let lo: u8 = if sym_time { kani::any() } else { 9 };
     let t: u64 = 0x1000 + lo as u64;
     let kind: u16 = if sym_kind { kani::any() } else { 7 };
     let v: [u8; 2] = if sym_value { kani::any() } else { [b'a', b'b'] };
-    let letter: u8 = if sym_letter { kani::any() } else { b'e' };
+    let letter: u8 = if sym_letter { kani::any() } else { fixed_letter };
     let pool = [letter, v[0], v[1], letter, v[0], v[1], b'q'];
     let mut b = [0u8; 220];
     let id = [0xC3u8; 32];
@@ -55,6 +55,7 @@ fn mirror(sym_time: bool, sym_kind: bool, sym_value: bool, sym_letter: bool, sha
     let (ntc, natc, nktc) = (ok!(l.tc_index.len(&txn)), ok!(l.atc_index.len(&txn)), ok!(l.ktc_index.len(&txn)));
     assert!(ntc == natc && natc == nktc && ntc <= 1);
     kani::cover!(ntc == 1);
+    kani::cover!(ntc == 0); // a name index() does not accept: still a reachability witness
     ok!(l.deindex(&mut txn, ev));
     ok!(l.deindex_id(&mut txn, Id::from_bytes(id)));
     assert!(ok!(l.i_index.len(&txn)) == 0, "id index entry leaked");
@@ -70,17 +71,34 @@ fn mirror(sym_time: bool, sym_kind: bool, sym_value: bool, sym_letter: bool, sha
 
 macro_rules! mirror_harness {
     ($name:ident, $t:expr, $k:expr, $v:expr, $l:expr, $shape:expr) => {
+        mirror_harness!($name, $t, $k, $v, $l, $shape, b'e');
+    };
+    ($name:ident, $t:expr, $k:expr, $v:expr, $l:expr, $shape:expr, $fixed:expr) => {
         #[kani::proof]
         #[kani::unwind(14)]
         #[kani::stub(core::panic::Location::caller, stub_caller)]
         #[kani::stub(std::hash::RandomState::new, stub_random_state)]
         fn $name() {
-            mirror($t, $k, $v, $l, $shape);
+            mirror($t, $k, $v, $l, $shape, $fixed);
         }
     };
 }
 mirror_harness!(c17_lmdb_mirror_letter, false, false, false, true, 1);
 mirror_harness!(c17_lmdb_mirror_repeated_tag, false, false, false, false, 2);
+
+//@ harness: c17_lmdb_mirror_upper c17_lmdb_mirror_digit
+//@ tier: quick
+//@ timeout: 700
+//@ mem: 20
+//@ covers: any
+//@ unwindset: put_bytes=80; heed::bytes_=260; heed::Table=6; memcmp.0=80; repeat::Repeat=190; Repeat.*try_fold=190; enc_tags=8; c17_lmdb=12; mirror=12
+//@ cbmc: --max-field-sensitivity-array-size 1100
+//@ encodes: Lmdb::index, Lmdb::deindex, Lmdb::deindex_id, key_ci_index, key_ac_index, key_akc_index, key_tc_index, key_atc_index, key_ktc_index, Event::tags, Tags::iter
+//@ bounds: one event (fixed id and author, kind 7, created_at 4105) with the single tag [E ab] (_upper: an UPPER-CASE one-letter name, which index() accepts) resp. [7 ab] (_digit: a one-byte name that is not a letter): constant twins of c17_lmdb_mirror_letter at the two classes of name where index() and deindex() could disagree, cheap enough to stay decidable when the two sides diverge (the arbitrary-letter harness ran out of memory on such a change). Same assertions: the three tag tables hold equally many entries after index, and every table is empty after deindex + deindex_id
+//@ outside: several events; values longer than 2 bytes; other letters (c17_lmdb_mirror_letter)
+//@ assumes: heed model (put/delete/len inside one write transaction)
+mirror_harness!(c17_lmdb_mirror_upper, false, false, false, false, 1, b'E');
+mirror_harness!(c17_lmdb_mirror_digit, false, false, false, false, 1, b'7');
 
 //@ harness: c17_lmdb_index_deindex_mirror
 //@ tier: thorough
